@@ -209,6 +209,24 @@ def _always_leaves(body) -> bool:
     return False
 
 
+def _fold_str_list(src: Source, mod: Module, node, env: dict):
+    """A constant sequence of strings (`*PATTERNS`, `*(f"{q}.*?{q}" for q in QUOTES)`), evaluated abstractly."""
+    from . import absint as A
+    try:
+        it = A.Interp(src)
+        r = it.eval(node, A.Env(mod, {k: A.Tmpl.lit(v) for k, v in env.items() if isinstance(v, str)}))
+        items = it.iterate(r, mod.site(node))
+        out = []
+        for x in items:
+            x = x.value if isinstance(x, A._Tagged) else x
+            if not (isinstance(x, A.Tmpl) and x.is_literal()):
+                return None
+            out.append(x.text())
+        return out
+    except (A.Unsupported, A.RaiseSig, A.NeedChoice, AnalysisError):
+        return None
+
+
 def _install_call_eval(src: Source, mod: Module):
     def ev(call: ast.Call, env: dict):
         from . import absint as A
@@ -345,6 +363,12 @@ def _extract_class(src, mod: Module, c: ast.ClassDef, menv: dict, done: dict) ->
             for d in st.decorator_list:
                 if isinstance(d, ast.Call) and dotted(d.func) == "_":
                     for a in d.args:
+                        if isinstance(a, ast.Starred):
+                            many = _fold_str_list(src, mod, a.value, env)
+                            if many is None:
+                                raise AnalysisError(f"{c.name}.{st.name}: @_ pattern is not constant")
+                            pats.extend(many)
+                            continue
                         s = fold_str(a, env)
                         if s is None:
                             raise AnalysisError(f"{c.name}.{st.name}: @_ pattern is not constant")
